@@ -20,6 +20,7 @@ from markupsafe import Markup
 
 from vt import core
 from vt.gen import stmt as G
+from vt.ref import interp
 
 PID = "C10"
 LEVEL = "exploration"
@@ -327,6 +328,12 @@ def _strategies():
         "{% with a = '' %}{% include 'inc' %}{% endwith %}", "{% include inc_name %}",
     ]
 
+    def bounded(prog, d):
+        """Resource probe (reference interpreter without its ambiguity guard): a program that leaves the step /
+        recursion / value-size budget on this data is replaced by a trivial one, nothing unbounded is rendered."""
+        r = interp.interpret_ex(prog, d, guard=False)
+        return [["text", "x"], ["out", ["name", "a"]]] if (r.kind == "declined" and r.value == "Budget") else prog
+
     @st.composite
     def tsets(draw, depth, nodes):
         shape = draw(st.sampled_from(["plain", "plain", "modules", "modules", "inherit", "inherit"]))
@@ -337,9 +344,10 @@ def _strategies():
                                       ["filt", "join", ["name", "s"], [["str", ""]]], ["int", 7]]))
             prog.insert(draw(st.integers(0, len(prog))), ["out", e])
         d = draw(data())
+        prog = bounded(prog, d)
         encs = draw(st.lists(st.sampled_from(CODECS), min_size=2, max_size=2))
         templates = {}
-        small = G.programs(2, 6, errors=False)
+        small = G.programs(2, 6, errors=False).map(lambda p: bounded(p, d))
         if shape == "plain":
             templates["main"] = G.print_program(prog)
         elif shape == "modules":
